@@ -226,10 +226,19 @@ def helper_answer(F, url):
     return b'OK tag=t-%s-%d' % (n, r), r
 
 
-def poison_body(F, w, kind):
+UNK_TAIL_LEN = len(' 00 kv=1')
+
+
+def poison_body(F, w, kind, live=None):
     if F.kind == 'rw':
-        return ('OK rewrite-url=%s' % w.url('/poison/%s' % kind)).encode()
-    return ('OK tag=poison-%s' % kind).encode()
+        b = ('OK rewrite-url=%s' % w.url('/poison/%s' % kind)).encode()
+    else:
+        b = ('OK tag=poison-%s' % kind).encode()
+    if kind == 'unk' and F.conc:
+        # the ignored line of an unknown channel ends with text that looks like a reply of its own for a channel that
+        # IS pending ("<live id> kv=1"): a cut right in front of it must not make Squid take the tail for a new reply
+        b += (' %-2d kv=1' % (live if live is not None else 0)).encode()
+    return b
 
 
 def client_request(F, w, n, r):
@@ -264,7 +273,7 @@ def build_items(F, w, order, inj, ids, urls):
                 idb = b'%d' % (max(ids.values()) + 4)
             else:
                 idb = b'abc'
-            items.append(Item(k, None, idb, poison_body(F, w, k)))
+            items.append(Item(k, None, idb, poison_body(F, w, k, live=ids[r] if F.conc else None)))
         body, rr = helper_answer(F, urls[r])
         if rr != r:
             raise HarnessError('rank mismatch')
@@ -307,7 +316,8 @@ def body_len(F, kind):
     """Body lengths are fixed by construction (zero-padded case numbers, 5-digit ports)."""
     if kind == 'legit':
         return {'rw': len(b'OK rewrite-url=http://127.0.0.1:12345/r/000000/0'), 'ext': len(b'OK tag=t-000000-0')}[F.kind]
-    return {'rw': len('OK rewrite-url=http://127.0.0.1:12345/poison/' + kind), 'ext': len('OK tag=poison-' + kind)}[F.kind]
+    return {'rw': len('OK rewrite-url=http://127.0.0.1:12345/poison/' + kind), 'ext': len('OK tag=poison-' + kind)}[F.kind] + (
+        UNK_TAIL_LEN if kind == 'unk' and F.conc else 0)
 
 
 def resolve_cut(F, items, pos):
